@@ -38,24 +38,53 @@ func wirePool(a *aspec.ASpec) {
 	str := aspec.Schema{K: "string"}
 	i64 := aspec.Schema{K: "int64"}
 	a.Schemas = append(a.Schemas,
-		aspec.NamedSchema{Name: "Item", Schema: objSchema(aspec.Prop{Name: "id", Schema: i64, Req: true}, aspec.Prop{Name: "name", Schema: str}, aspec.Prop{Name: "tags", Schema: aspec.Schema{K: "array", Items: &str}}, aspec.Prop{Name: "at", Schema: aspec.Schema{K: "datetime"}})},
+		aspec.NamedSchema{Name: "Thing", Schema: objSchema(aspec.Prop{Name: "id", Schema: i64, Req: true}, aspec.Prop{Name: "name", Schema: str}, aspec.Prop{Name: "tags", Schema: aspec.Schema{K: "array", Items: &str}}, aspec.Prop{Name: "at", Schema: aspec.Schema{K: "datetime"}})},
 		aspec.NamedSchema{Name: "Bag", Schema: func() aspec.Schema {
 			o := objSchema(aspec.Prop{Name: "count", Schema: aspec.Schema{K: "int32"}, Req: true}, aspec.Prop{Name: "note", Schema: aspec.Schema{K: "string", Nullable: true}})
 			o.AddlK, o.Addl = "schema", &str
 			return o
 		}()},
-		aspec.NamedSchema{Name: "Items", Schema: aspec.Schema{K: "array", Items: &aspec.Schema{K: "ref", To: "Item"}}},
+		aspec.NamedSchema{Name: "Things", Schema: aspec.Schema{K: "array", Items: &aspec.Schema{K: "ref", To: "Thing"}}},
 	)
 	for _, t := range wireTypes {
 		a.Schemas = append(a.Schemas, aspec.NamedSchema{Name: "Ref" + strings.Title(t), Schema: aspec.Schema{K: t}})
 	}
+	a.RequestBodies = append(a.RequestBodies, aspec.NamedBody{Name: "PooledBody", Body: aspec.Body{K: "json", Schema: &aspec.Schema{K: "ref", To: "Thing"}, Req: true}},
+		aspec.NamedBody{Name: "PooledInline", Body: aspec.Body{K: "json", Schema: func() *aspec.Schema {
+			o := objSchema(aspec.Prop{Name: "label", Schema: str, Req: true}, aspec.Prop{Name: "n", Schema: aspec.Schema{K: "int32"}})
+			return &o
+		}(), Req: true}})
 	// component responses shared by several operations under different (numbered) statuses, one for defaults only
 	a.Responses = append(a.Responses,
 		aspec.NamedResponse{Name: "SharedProblem", R: &aspec.Response{Desc: "problem", Headers: []aspec.Header{{Name: "X-Next", Schema: str}}, Body: aspec.Body{K: "json", Schema: &aspec.Schema{K: "ref", To: "Bag"}}}},
 		aspec.NamedResponse{Name: "SharedEmpty", R: &aspec.Response{Desc: "empty", Headers: []aspec.Header{{Name: "x-count", Req: true, Schema: aspec.Schema{K: "int32"}}}, Body: aspec.Body{K: "none"}}},
 		aspec.NamedResponse{Name: "SharedProblemAlias", Alias: "SharedProblem"},
-		aspec.NamedResponse{Name: "SharedDefault", R: &aspec.Response{Desc: "default", Body: aspec.Body{K: "json", Schema: &aspec.Schema{K: "ref", To: "Item"}}}},
+		aspec.NamedResponse{Name: "SharedDefault", R: &aspec.Response{Desc: "default", Body: aspec.Body{K: "json", Schema: &aspec.Schema{K: "ref", To: "Thing"}}}},
 	)
+}
+
+// resolveBody follows a reference to components.requestBodies.
+func resolveBody(a *aspec.ASpec, b aspec.Body) aspec.Body {
+	if b.K == "ref" {
+		for _, rb := range a.RequestBodies {
+			if rb.Name == b.To {
+				return rb.Body
+			}
+		}
+	}
+	return b
+}
+
+// bodyVia names how the request body is declared (selector of a known finding).
+func bodyVia(a *aspec.ASpec, b aspec.Body) string {
+	if b.K != "ref" {
+		return b.K
+	}
+	rb := resolveBody(a, b)
+	if rb.K == "json" && rb.Schema != nil && rb.Schema.K == "object" {
+		return "componentInlineObject"
+	}
+	return "component"
 }
 
 func randSchemaBody(rng *rand.Rand) aspec.Body {
@@ -64,15 +93,15 @@ func randSchemaBody(rng *rand.Rand) aspec.Body {
 	case 0:
 		return aspec.Body{K: "none"}
 	case 1:
-		return aspec.Body{K: "json", Schema: &aspec.Schema{K: "ref", To: "Item"}}
+		return aspec.Body{K: "json", Schema: &aspec.Schema{K: "ref", To: "Thing"}}
 	case 2:
 		return aspec.Body{K: "json", Schema: &aspec.Schema{K: "ref", To: "Bag"}}
 	case 3:
-		return aspec.Body{K: "json", Schema: &aspec.Schema{K: "ref", To: "Items"}}
+		return aspec.Body{K: "json", Schema: &aspec.Schema{K: "ref", To: "Things"}}
 	case 4:
 		return aspec.Body{K: "json", Schema: &aspec.Schema{K: "array", Items: &str}}
 	case 5:
-		o := objSchema(aspec.Prop{Name: "ok", Schema: aspec.Schema{K: "bool"}, Req: true}, aspec.Prop{Name: "ref", Schema: aspec.Schema{K: "ref", To: "Item"}})
+		o := objSchema(aspec.Prop{Name: "ok", Schema: aspec.Schema{K: "bool"}, Req: true}, aspec.Prop{Name: "ref", Schema: aspec.Schema{K: "ref", To: "Thing"}})
 		return aspec.Body{K: "json", Schema: &o}
 	}
 	return aspec.Body{K: "raw", Media: "application/octet-stream"}
@@ -147,7 +176,12 @@ func randWireOp(a *aspec.ASpec, k int, rng *rand.Rand) wireOp {
 	op.Params = params
 	if method != "GET" && method != "DELETE" {
 		op.Body = randSchemaBody(rng)
-		if op.Body.K == "none" {
+		if rng.Intn(4) == 0 {
+			op.Body = aspec.Body{K: "ref", To: []string{"PooledBody", "PooledInline"}[rng.Intn(2)]}
+		}
+		if op.Body.K == "ref" {
+			// a reference to components.requestBodies
+		} else if op.Body.K == "none" {
 			op.Body = aspec.Body{K: "none"}
 		} else {
 			op.Body.Req = true
@@ -343,15 +377,16 @@ func checkWire(c *core.Check, which string) {
 					hasDefault = true
 				}
 			}
-			body := map[string]any{"k": w.op.Body.K, "s": map[string]any{"k": "any", "nullable": false}}
-			if w.op.Body.K == "json" {
-				body["s"] = tlaSchema(a, *w.op.Body.Schema, 0)
+			rb := resolveBody(a, w.op.Body)
+			body := map[string]any{"k": rb.K, "s": map[string]any{"k": "any", "nullable": false}}
+			if rb.K == "json" {
+				body["s"] = tlaSchema(a, *rb.Schema, 0)
 			}
 			dd := w.decls
 			if dd == nil {
 				dd = []decl{}
 			}
-			ops = append(ops, map[string]any{"id": opID, "m": w.op.Method, "t": w.tmpl, "decls": dd, "body": body, "resps": resps, "hasDefault": hasDefault})
+			ops = append(ops, map[string]any{"id": opID, "m": w.op.Method, "t": w.tmpl, "decls": dd, "body": body, "bodyVia": bodyVia(a, w.op.Body), "resps": resps, "hasDefault": hasDefault})
 			for s := 0; s < nSeeds; s++ {
 				caseN++
 				cid := fmt.Sprintf("c%d", caseN)
@@ -592,6 +627,9 @@ func checkWire(c *core.Check, which string) {
 			continue
 		}
 		mine++
+		if rj.KF != "" && c.Known(rj.KF) {
+			continue
+		}
 		m := metaOf[rj.Case]
 		c.Violation(map[string]any{"operation": m.w.op, "template": aspec.TemplateString(m.w.tmpl), "events": info[rj.Case], "reject": rj, "package": m.pkg},
 			fmt.Sprintf("client/server (%s): operation %s %s: %s", which, m.w.op.Method, aspec.TemplateString(m.w.tmpl), trunc(strings.Join(info[rj.Case], " | "), 900)))
@@ -694,7 +732,7 @@ func wireEvent(e map[string]any, w wireOp, base []string) map[string]any {
 	b, _ := e["body"].(string)
 	bs, _ := base64.StdEncoding.DecodeString(b)
 	body := core.J{"t": "null", "c": "null"}
-	if w.op.Body.K == "json" {
+	if w.op.Body.K == "json" || w.op.Body.K == "ref" {
 		body = core.ParseJ(bs)
 	}
 	return map[string]any{"ev": "Wire", "method": e["method"], "kind": kind, "segs": segs, "sup": sup, "undeclared": undeclared, "body": body, "hasBody": len(bs) > 0}
